@@ -290,7 +290,8 @@ class Executor:
 
     def list_at_raw(self, st, v, i):
         """Element at 0-based position i (no bounds handling)."""
-        e = z3.Select(self.list_arr(st, v), self.list_off(st, v) + i)
+        off = self.list_off(st, v)
+        e = z3.Select(self.list_arr(st, v), i if (z3.is_int_value(off) and off.as_long() == 0) else off + i)
         return self.valid_ref(st, Val(v.t.elt, e))
 
     def list_set_len(self, st, v, n):
@@ -302,7 +303,9 @@ class Executor:
         self.heap.set(st, k, z3.Store(self.heap.get(st, k), v.z, arr))
 
     def list_store(self, st, v, i, x):
-        self.list_set_arr(st, v, z3.Store(self.list_arr(st, v), self.list_off(st, v) + i, x.z))
+        off = self.list_off(st, v)
+        pos = i if (z3.is_int_value(off) and off.as_long() == 0) else off + i
+        self.list_set_arr(st, v, z3.Store(self.list_arr(st, v), pos, x.z))
 
     def list_append(self, st, v, x):
         x = self.coerce(x, v.t.elt, st)
@@ -439,7 +442,8 @@ class Executor:
             if isinstance(t, List):
                 arr, off, n = self.list_arr(st, v), self.list_off(st, v), self.list_len(st, v)
                 st.assume(n >= 0)
-                return View(n, lambda i: self.valid_ref(st, Val(t.elt, z3.Select(arr, off + i))), t.elt)
+                zo = z3.is_int_value(off) and off.as_long() == 0
+                return View(n, lambda i: self.valid_ref(st, Val(t.elt, z3.Select(arr, i if zo else off + i))), t.elt)
             if isinstance(t, (Set, Dict)):
                 # arbitrary iteration order: a duplicate-free enumeration ks of the key set
                 ks = fresh("keys", z3.SeqSort(t.k.sort()))
@@ -457,6 +461,8 @@ class Executor:
                 return View(n, lambda i: self.valid_ref(st, Val(t.k, ks[i])), t.k, distinct=True)
             if isinstance(t, Opt):
                 return self.view_of(self.coerce(v, t.elt, st), st)
+            if isinstance(t, Obj) and self.reg.classes.get(t.cls) and self.reg.classes[t.cls].iter_delegate:
+                return self.view_of(self.get_field(st, v, self.reg.classes[t.cls].iter_delegate), st)
             if isinstance(t, Obj):
                 c = self.reg.find_method(t.cls, "__iter__")
                 if c is not None and c.yields:
